@@ -652,6 +652,8 @@ pub fn c13_parse(sk: &Skeleton) -> Leaf {
         };
         // "same": whenever the first text is accepted, the variant is accepted and parses to the same transactions
         let ok = if mode == "same" { matches!(&parsed[0], Err(_)) || ok } else { ok };
+        // "second-rejected": whenever the first text is accepted, the corrupted variant is rejected
+        let ok = if mode == "second-rejected" { parsed[0].is_err() || parsed[1].is_err() } else { ok };
         leaf.ob_bool("C13.variant-parses-the-same", ok, &format!("{:?} vs {:?}", texts[0], texts[1]));
     }
     leaf
